@@ -8,7 +8,7 @@ def config(T):
         "C03": dict(pkg="c03", fuzz=[dict(name="FuzzRoundTrip", secs=60)], tests=[T("TestPinned"), T("TestRoundTrip", 36000, 400000, sq=8, st=16)]),
         "C06": dict(pkg="c06", race_quick=True, tests=[T("TestKnownTypename"), T("TestSiblingHops", race=True), T("TestTransparent", 640, 16000, sq=8, st=16), T("TestDirectivesGateway", 80, 4000, sq=4, st=8),
                                                        T("TestConcurrentRefresh", 30, 600, sq=1, st=4, race=True, timeout_q=900)]),
-        "C07": dict(pkg="c07", tests=[T("TestLiveSQL", 2400, 32000, sq=8, st=16, race=True)]),
+        "C07": dict(pkg="c07", tests=[T("TestLiveSQL", 6400, 48000, sq=8, st=16, race=True)]),
         "C08": dict(pkg="c08", tests=[T("TestCache", 7200, 96000, sq=8, st=16, race=True)]),
         "C09": dict(pkg="c09", tests=[T("TestKnownOrder"), T("TestMergeAlgebra", 12000, 160000, sq=8, st=16), T("TestVersionedGateway", 240, 8000, sq=4, st=8)]),
         "C10": dict(pkg="c10", tests=[T("TestBatchTransparent", 4800, 48000, sq=8, st=16, race=True)]),
@@ -19,10 +19,10 @@ def config(T):
         "C15": dict(pkg="c15", fuzz=[dict(name="FuzzPipeline", secs=90), dict(name="FuzzEnvelope", secs=45), dict(name="FuzzHTTP", secs=45)], tests=[T("TestPinned"), T("TestDocuments", 36000, 600000, sq=6, st=16), T("TestBombs", 200, 2000, sq=2, st=4),
                                       T("TestEnvelopes", 600, 20000, sq=2, st=8, race=True), T("TestHTTP", 800, 20000, sq=2, st=4),
                                       T("TestPanicContained", 150, 3000, sq=1, st=4, race=True), T("TestCancellation", 200, 4000, sq=1, st=1), T("TestGatewayCancellation", 150, 3000, sq=1, st=1), T("TestGatewaySiblingFailure", 120, 2000, sq=4, st=8)]),
-        "C16": dict(pkg="c16", tests=[T("TestDirect", 12000, 120000, sq=6, st=12), T("TestSocket", 1800, 12000, sq=6, st=8, race=True)]),
+        "C16": dict(pkg="c16", tests=[T("TestDirect", 12000, 120000, sq=6, st=12), T("TestSocket", 1800, 12000, sq=6, st=8, race=True), T("TestMutations", 600, 12000, sq=4, st=8, race=True)]),
         "C17": dict(pkg="c17", tests=[T("TestPinned"), T("TestStaleCloser"), T("TestLifecycle", 1920, 24000, sq=8, st=16, race=True)]),
         "C18": dict(pkg="c18", tests=[T("TestArgs", 24000, 400000, sq=6, st=16), T("TestArgsNegative", 12000, 100000, sq=4, st=8)]),
-        "C19": dict(pkg="c19", tests=[T("TestPinned"), T("TestDirectives", 12000, 160000, sq=8, st=16)]),
+        "C19": dict(pkg="c19", tests=[T("TestPinned"), T("TestDirectives", 12000, 160000, sq=8, st=16), T("TestDirectivesGateway", 240, 4000, sq=6, st=8, pkg="c06")]),
         "C20": dict(pkg="c20", tests=[T("TestPinned"), T("TestLimiter", 480, 24000, sq=8, st=16, race=True)]),
         "C04": dict(pkg="c04", tests=[T("TestRerun", 7200, 96000, sq=8, st=16, race=True)]),
         "C05": dict(pkg="c05", tests=[T("TestBatch", 6000, 64000, sq=8, st=16, race=True)]),
